@@ -63,3 +63,8 @@ Definition sqrt (x : Z) : sqrt_out :=
        | Some z => SqSome z
        | None => SqOutOfFuel
        end.
+
+(* func (z *Element) Bit(i uint64) uint64 / BitLen() int, on the single limb as stored *)
+Definition bit (z : Z) (i : Z) : Z :=
+  if i / 64 >=? 1 then 0 else (z / 2 ^ (i mod 64)) mod 2.
+Definition bitLen (z : Z) : Z := if z =? 0 then 0 else Z.log2 z + 1.
